@@ -341,9 +341,16 @@ func TestC20(t *testing.T) {
 			c.Class("path/%s/len=%d/hits=%d/resolvable=%v", how, plen, min(len(want), 3), resolvable)
 			var got []*diam.AVP
 			var err error
+			pathBefore := append([]any(nil), path...)
 			if p, bad := guard(func() { got, err = dm.FindAVPsWithPath(path, refdict.AnyVendor) }); bad {
 				c.Fail(ev.Sig{"op": "panic", "form": "path"}, nil, nil, "FindAVPsWithPath panicked: %s", p)
 				return
+			}
+			for i := range path {
+				if path[i] != pathBefore[i] {
+					c.Fail(ev.Sig{"op": "FindAVPsWithPath", "kind": "query-modified"}, nil, nil, "FindAVPsWithPath changed the caller's path: element %d was %#v, is %#v (the same path used on a message of another application would follow this message's codes)", i, pathBefore[i], path[i])
+					return
+				}
 			}
 			d := fmt.Sprintf("path %v (codes %v) on %s tree {%s}", path, codes, how, refcodec.Describe(m.Nodes))
 			if resolvable {
